@@ -15,7 +15,8 @@ def run(tier, opts):
                "re-declarations, and runs the real verifier under an event budget of 40 x (number of values in the proof) + 2000 hooked events (every "
                "hash, transcript operation, coset and query is an event) and a 20 s wall clock, and under an allocation meter (global allocator of the harness: peak live bytes and largest single request of the "
                "verifying thread, budget 2 KiB x values + 1 MiB; honest runs need about 150 bytes per value); validate_public_input, verify_public_input and "
-               "StarkConfig::validate are also run alone on every mutated proof under the same meter: exhausting any budget is a violation. "
+               "StarkConfig::validate are also run alone on every mutated proof under the same meter: exhausting any budget is a violation; a run that does not return within 120 s "
+               "is reported by the harness watchdog. "
                "non-trivial = distinct recipes")
     ck.assumptions = ["work is counted in hooked events (hashes, transcript operations, FRI cosets); pure field arithmetic between events is bounded by the 252-bit exponent size",
                       "time and memory are measured, not modelled"]
@@ -36,6 +37,11 @@ def run(tier, opts):
         outp = os.path.join(tmp, f"work-{b}.ndjson")
         r = vf.vh(binp, ["malformed", "c17", outp, 6 if quick else 40, "yes", "0" if quick else "1"], timeout=6 * 3600, check=False)
         if r.returncode != 0:
+            if r.returncode == 3 and "WATCHDOG-TIMEOUT" in r.stderr:
+                line = [l for l in r.stderr.splitlines() if "WATCHDOG-TIMEOUT" in l][-1]
+                label = line.split(": ", 1)[1] if ": " in line else line
+                ck.violation("hang:" + label.split(" | ")[0][:80], f"[{b}] verification did not return within 120 s (honest runs take milliseconds): {label[:300]}", {"stderr": r.stderr[-4000:], "case": label})
+                continue
             if "memory allocation" in r.stderr:
                 ck.violation("alloc:" + r.stderr.strip().splitlines()[-1][:60], f"[{b}] the verifier tried to allocate memory in proportion to a declared number: {r.stderr.strip()[-300:]}", {"stderr": r.stderr[-4000:]})
                 continue
